@@ -77,14 +77,17 @@ fn site_defs(rng: &mut Rng) -> Vec<String> {
     out
 }
 
-fn gen_op(rng: &mut Rng) -> String {
-    let o = format!("objs[{}]", rng.below(17));
+fn gen_op(rng: &mut Rng, site_names: &[&'static str]) -> String {
+    // one mutation in three targets a unique-shape (dictionary-mode) receiver: Math,
+    // Array.prototype, the dictionary object, the global object
+    let o = if rng.chance(1, 3) { format!("objs[{}]", rng.range(12, 15)) } else { format!("objs[{}]", rng.below(17)) };
     let p = *rng.pick(&["P0", "P1", "C.prototype", "D.prototype", "Object.prototype", "Array.prototype", "Function.prototype"]);
     let target = if rng.chance(1, 2) { o.clone() } else { p.to_string() };
-    let nm = *rng.pick(NAMES);
+    // mostly the names that this scenario's access sites actually use
+    let nm = if !site_names.is_empty() && rng.chance(3, 4) { *rng.pick(site_names) } else { *rng.pick(NAMES) };
     let g = *rng.pick(GLOBALS);
     let v = rng.below(100);
-    match rng.below(39) {
+    match rng.below(42) {
         0..=2 => format!("{target}.{nm}={v};"),
         3 | 4 => format!("delete {target}.{nm};"),
         5 => format!("Object.defineProperty({target},'{nm}',{{get(){{ return 'getter{v}'; }}, configurable:true, enumerable:true}});"),
@@ -119,14 +122,19 @@ fn gen_op(rng: &mut Rng) -> String {
         35 => format!("RAW:let {g} = 'lexical{v}';"),
         36 => format!("RAW:var {g} = 'var{v}'; function gf{v}(){{ return {g}; }}"),
         37 => format!("Object.defineProperty({target},'{nm}',{{enumerable:{}, writable:{}}});", rng.chance(1, 2), rng.chance(1, 2)),
-        _ => format!("warm(); {o}.{nm}='w'; Object.{}({o}); warm();", rng.pick(&["freeze", "seal", "preventExtensions"])),
+        38 => format!("warm(); {o}.{nm}='w'; Object.{}({o}); warm();", rng.pick(&["freeze", "seal", "preventExtensions"])),
+        39 => format!("{o}.{nm}='rw{v}'; warm(); Object.defineProperty({o},'{nm}',{{writable:false}});"),
+        40 => format!("Object.defineProperty({o},'{nm}',{{set(w){{ this._only{v}=w; }}, configurable:true}}); warm(); Object.defineProperty({o},'{nm}',{{get(){{ return 'added-getter{v}'; }}}});"),
+        _ => format!("{o}.{nm}='c{v}'; warm(); Object.defineProperty({o},'{nm}',{{configurable:false, enumerable:false}}); delete {o}.{nm};"),
     }
 }
 
 pub fn generate(rng: &mut Rng, tier: Tier) -> Value {
     let n = rng.range(6, if tier == Tier::Quick { 30 } else { 60 });
     let sites = site_defs(rng);
-    let ops = (0..n).map(|_| gen_op(rng)).collect();
+    let site_names: Vec<&'static str> =
+        NAMES.iter().copied().filter(|nm| sites.iter().any(|s| s.split('|').next().is_some_and(|h| h.split('_').nth(1) == Some(nm)))).collect();
+    let ops = (0..n).map(|_| gen_op(rng, &site_names)).collect();
     let sc = Scenario {
         setup: SETUP.to_string(),
         sites,
@@ -316,7 +324,7 @@ pub const PROP: Prop = Prop {
     generate,
     execute,
     shrink,
-    rule: "one run = one scenario (16 pooled receivers incl. arrays, functions, class instances, null-prototype and arguments objects, and four unique-shape (dictionary) receivers: Math, Array.prototype, a user object pushed into dictionary mode, globalThis + 5 primitive receivers; prototype chains P0<-P1, C<-D, built-in prototypes; 5..11 access sites drawn from get / set / strict-mode set / call / compound / optional / global read / global write / length / receiver-sensitive get / super forms; a history of 6..30 (quick) / 6..60 (thorough) mutations drawn from 39 kinds (this-sensitive accessors, getters on primitives' prototypes, `length` getters, attribute-only changes, top-level lexical declarations shadowing global properties; 8 of them composite, with a warm-up of every site in the middle: install-use-remove-replace, data-to-accessor, prototype swap, shadow/unshadow, global install/remove): add, delete, redefine as accessor / read-only / setter, reorder or shift a prototype's layout, setPrototypeOf, preventExtensions/seal/freeze, dictionary mode, megamorphic storm, shadow/unshadow, pool replacement, global object mutations) executed in 5 configurations: cache off (reference), on, on + collections, buggified, buggified + collections; after every mutation every site runs against every receiver; non-trivial = always (every run compares four cached configurations against the uncached one); distinct = distinct (site count, history length, hit/miss/stale counters of the four configurations)",
+    rule: "one run = one scenario (16 pooled receivers incl. arrays, functions, class instances, null-prototype and arguments objects, and four unique-shape (dictionary) receivers: Math, Array.prototype, a user object pushed into dictionary mode, globalThis + 5 primitive receivers; prototype chains P0<-P1, C<-D, built-in prototypes; 5..11 access sites drawn from get / set / strict-mode set / call / compound / optional / global read / global write / length / receiver-sensitive get / super forms; a history of 6..30 (quick) / 6..60 (thorough) mutations drawn from 42 kinds (this-sensitive accessors, getters on primitives' prototypes, `length` getters, attribute-only changes, top-level lexical declarations shadowing global properties; 8 of them composite, with a warm-up of every site in the middle: install-use-remove-replace, data-to-accessor, prototype swap, shadow/unshadow, global install/remove): add, delete, redefine as accessor / read-only / setter, reorder or shift a prototype's layout, setPrototypeOf, preventExtensions/seal/freeze, dictionary mode, megamorphic storm, shadow/unshadow, pool replacement, global object mutations) executed in 5 configurations: cache off (reference), on, on + collections, buggified, buggified + collections; after every mutation every site runs against every receiver; non-trivial = always (every run compares four cached configurations against the uncached one); distinct = distinct (site count, history length, hit/miss/stale counters of the four configurations)",
     real: &["lexer/parser/compiler/VM/builtins", "shapes, property maps, inline caches", "boa_gc (weak shapes)"],
     stub: &["inline-cache interference (hook H3: forced miss / skipped fill / off)", "collection trigger decision (hook H1)"],
     assumptions: &[
